@@ -148,6 +148,94 @@ var kinds = map[string]kindDef{
 		return pick(v, enctypes.Ma{}, enctypes.Ma{N: 1, B: &enctypes.Mb{S: "b", A: &enctypes.Ma{N: 2, B: &enctypes.Mb{S: "c"}}, As: []enctypes.Ma{{N: 3}, {N: 4, B: &enctypes.Mb{}}}}},
 			enctypes.Ma{N: 1, B: &enctypes.Mb{S: "b"}})
 	}},
+	// generic struct types (type names with [ ] . / in them)
+	"Pair[int]": {typ: reflect.TypeOf(enctypes.Pair[int]{}), val: func(v string) any {
+		return pick(v, enctypes.Pair[int]{}, enctypes.Pair[int]{Left: 1, Right: 2}, enctypes.Pair[int]{Right: 2})
+	}},
+	"Pair[string]": {typ: reflect.TypeOf(enctypes.Pair[string]{}), val: func(v string) any {
+		return pick(v, enctypes.Pair[string]{}, enctypes.Pair[string]{Left: "l", Right: "r"}, enctypes.Pair[string]{Right: "r"})
+	}},
+	"Pair[Pair[int]]": {typ: reflect.TypeOf(enctypes.Pair[enctypes.Pair[int]]{}), val: func(v string) any {
+		return pick(v, enctypes.Pair[enctypes.Pair[int]]{}, enctypes.Pair[enctypes.Pair[int]]{Left: enctypes.Pair[int]{Left: 1, Right: 2}, Right: enctypes.Pair[int]{Left: 3}},
+			enctypes.Pair[enctypes.Pair[int]]{Right: enctypes.Pair[int]{Left: 3}})
+	}},
+	"*Pair[int]": {typ: reflect.TypeOf((*enctypes.Pair[int])(nil)), val: func(v string) any {
+		return pick(v, (*enctypes.Pair[int])(nil), &enctypes.Pair[int]{Left: 1, Right: 2}, &enctypes.Pair[int]{})
+	}},
+	"[]Pair[int]": {typ: reflect.TypeOf([]enctypes.Pair[int](nil)), val: func(v string) any {
+		return pick(v, []enctypes.Pair[int](nil), []enctypes.Pair[int]{{Left: 1, Right: 2}, {}}, []enctypes.Pair[int]{})
+	}},
+	"anyPair": {typ: reflect.TypeOf((*any)(nil)).Elem(), val: func(v string) any {
+		return pick(v, nil, any(&enctypes.Pair[int]{Left: 1, Right: 2}), any(enctypes.Pair[string]{Left: "l"}))
+	}},
+	// the same struct type embedded along two paths; diamonds
+	"Doc": {typ: reflect.TypeOf(enctypes.Doc{}), val: func(v string) any {
+		return pick(v, enctypes.Doc{}, docN(), enctypes.Doc{Base: enctypes.Base{Stamp: enctypes.Stamp{Created: 3}, ID: 7}})
+	}},
+	"Doc2": {typ: reflect.TypeOf(enctypes.Doc2{}), val: func(v string) any {
+		d := docN()
+		return pick(v, enctypes.Doc2{}, enctypes.Doc2{Base: d.Base, Stamp: d.Stamp, Title: "t"}, enctypes.Doc2{Stamp: enctypes.Stamp{Updated: 2}})
+	}},
+	"Dia": {typ: reflect.TypeOf(enctypes.Dia{}), val: func(v string) any {
+		return pick(v, enctypes.Dia{}, enctypes.Dia{B1: enctypes.B1{D0: enctypes.D0{K: 1}, Bx: 2}, C1: enctypes.C1{D0: enctypes.D0{K: 3}, Cx: 4}, T: "t"}, enctypes.Dia{C1: enctypes.C1{D0: enctypes.D0{K: 3}}})
+	}},
+	"Dia2": {typ: reflect.TypeOf(enctypes.Dia2{}), val: func(v string) any {
+		return pick(v, enctypes.Dia2{}, enctypes.Dia2{B1: enctypes.B1{D0: enctypes.D0{K: 1}, Bx: 2}, D0: enctypes.D0{K: 3}, T: "t"}, enctypes.Dia2{B1: enctypes.B1{D0: enctypes.D0{K: 1}}})
+	}},
+	"Base": {typ: reflect.TypeOf(enctypes.Base{}), emb: true, val: func(v string) any {
+		return pick(v, enctypes.Base{}, enctypes.Base{Stamp: enctypes.Stamp{Created: 3, Updated: 4}, ID: 7}, enctypes.Base{ID: 7})
+	}},
+	"Stamp": {typ: reflect.TypeOf(enctypes.Stamp{}), emb: true, val: func(v string) any {
+		return pick(v, enctypes.Stamp{}, enctypes.Stamp{Created: 1, Updated: 2}, enctypes.Stamp{Updated: 2})
+	}},
+	// members whose interface data word is zero although they are not nil pointers / interfaces (OmitNil: nil members only)
+	"SP":      {typ: reflect.TypeOf(enctypes.SP{}), val: func(v string) any { return pick(v, enctypes.SP{}, enctypes.SP{P: ip(7)}, enctypes.SP{P: ip(0)}) }},
+	"E0":      {typ: reflect.TypeOf(enctypes.E0{}), val: func(v string) any { return enctypes.E0{} }},
+	"[1]*int": {typ: reflect.TypeOf([1]*int{}), val: func(v string) any { return pick(v, [1]*int{}, [1]*int{ip(7)}, [1]*int{ip(0)}) }},
+	"[1]*S": {typ: reflect.TypeOf([1]*enctypes.S1{}), val: func(v string) any {
+		return pick(v, [1]*enctypes.S1{}, [1]*enctypes.S1{{Sa: 3, Sb: "x"}}, [1]*enctypes.S1{{}})
+	}},
+	// elements that embed a struct POINTER (e: the pointer is set, its target all zero)
+	"Meta": {typ: reflect.TypeOf(enctypes.Meta{}), val: func(v string) any {
+		return pick(v, enctypes.Meta{}, metaN(), enctypes.Meta{MBase: &enctypes.MBase{}, Note: "a"})
+	}},
+	"*Meta": {typ: reflect.TypeOf((*enctypes.Meta)(nil)), val: func(v string) any {
+		m := metaN()
+		return pick(v, (*enctypes.Meta)(nil), &m, &enctypes.Meta{MBase: &enctypes.MBase{}, Note: "a"})
+	}},
+	"[]Meta": {typ: reflect.TypeOf([]enctypes.Meta(nil)), val: func(v string) any {
+		return pick(v, []enctypes.Meta(nil), []enctypes.Meta{metaN(), {MBase: &enctypes.MBase{}}}, []enctypes.Meta{{MBase: &enctypes.MBase{}, Note: "b"}})
+	}},
+	"map[string]Meta": {typ: reflect.TypeOf(map[string]enctypes.Meta(nil)), val: func(v string) any {
+		return pick(v, map[string]enctypes.Meta(nil), map[string]enctypes.Meta{"a": metaN(), "z": {MBase: &enctypes.MBase{}}}, map[string]enctypes.Meta{"z": {MBase: &enctypes.MBase{}, Note: "c"}})
+	}},
+	// members whose key is the create key
+	"Ev": {typ: reflect.TypeOf(enctypes.Ev{}), val: func(v string) any {
+		return pick(v, enctypes.Ev{}, enctypes.Ev{Seq: 1, Type: "click"}, enctypes.Ev{Type: "key"})
+	}},
+	"LogT": {typ: reflect.TypeOf(enctypes.LogT{}), val: func(v string) any {
+		return pick(v, enctypes.LogT{}, enctypes.LogT{Name: "log", Events: []*enctypes.Ev{{Seq: 1, Type: "click"}, {Seq: 2, Type: "key"}}, First: &enctypes.Ev{Seq: 3, Type: "Ev"}},
+			enctypes.LogT{First: &enctypes.Ev{Type: "key"}})
+	}},
+	"Hat": {typ: reflect.TypeOf(enctypes.Hat{}), tagsOnly: true, val: func(v string) any {
+		return pick(v, enctypes.Hat{}, enctypes.Hat{Caret: "c", N: 1}, enctypes.Hat{Caret: "Hat"})
+	}},
+	// owners that reach Leaf only through 3 .. 6 container / pointer levels, with an interface member holding a *Leaf
+	// (n: deep member populated, e: deep member empty, z: everything nil)
+	"Deep3": {typ: reflect.TypeOf(enctypes.Deep3{}), val: func(v string) any {
+		return pick(v, enctypes.Deep3{}, enctypes.Deep3{Deep: map[string][]*enctypes.Leaf{"k": {leafN()}}, Top: leafN()}, enctypes.Deep3{Deep: map[string][]*enctypes.Leaf{}, Top: leafN()})
+	}},
+	"Deep4": {typ: reflect.TypeOf(enctypes.Deep4{}), val: func(v string) any {
+		return pick(v, enctypes.Deep4{}, enctypes.Deep4{Deep: [][][][]enctypes.Leaf{{{{*leafN()}}}}, Top: leafN()}, enctypes.Deep4{Deep: [][][][]enctypes.Leaf{}, Top: leafN()})
+	}},
+	"Deep5": {typ: reflect.TypeOf(enctypes.Deep5{}), val: func(v string) any {
+		return pick(v, enctypes.Deep5{}, enctypes.Deep5{Deep: map[string]map[string]map[string][]*enctypes.Leaf{"a": {"b": {"c": {leafN()}}}}, Top: leafN()},
+			enctypes.Deep5{Deep: map[string]map[string]map[string][]*enctypes.Leaf{}, Top: leafN()})
+	}},
+	"Deep6": {typ: reflect.TypeOf(enctypes.Deep6{}), val: func(v string) any {
+		return pick(v, enctypes.Deep6{}, enctypes.Deep6{Deep: map[string][]map[string][]*[2]enctypes.Leaf{"a": {{"b": {&[2]enctypes.Leaf{*leafN(), {}}}}}}, Top: leafN()},
+			enctypes.Deep6{Deep: map[string][]map[string][]*[2]enctypes.Leaf{}, Top: leafN()})
+	}},
 	// embedded self pointers (every encoder used to die with a stack overflow while building the field plan)
 	"EN": {typ: reflect.TypeOf(enctypes.EN{}), isolate: true, val: func(v string) any {
 		return pick(v, enctypes.EN{}, enctypes.EN{EN: &enctypes.EN{V: 3}, V: 2}, enctypes.EN{V: 2})
@@ -353,6 +441,14 @@ func slicePM(v string) any {
 	}
 	return a
 }
+
+func docN() enctypes.Doc {
+	return enctypes.Doc{Stamp: enctypes.Stamp{Created: 1, Updated: 2}, Base: enctypes.Base{Stamp: enctypes.Stamp{Created: 3, Updated: 4}, ID: 7}, Title: "t"}
+}
+
+func metaN() enctypes.Meta { return enctypes.Meta{MBase: &enctypes.MBase{Rev: 1, Tag: "g"}, Note: "a"} }
+
+func leafN() *enctypes.Leaf { return &enctypes.Leaf{La: 1, Lb: "l"} }
 
 func nodeN() enctypes.Node {
 	return enctypes.Node{V: 1, Next: &enctypes.Node{V: 2, Next: &enctypes.Node{V: 3, Kids: []enctypes.Node{{V: 4}}}},
